@@ -567,11 +567,22 @@ class Gen:
                     ins.append((loops[k - 1][1], k, text))
                 for pos, k, text in sorted(ins, reverse=True):
                     body = body[:pos] + "\n/*@LOOP %d*/\n" % k + text + "\n/*@ENDLOOP*/\n" + body[pos:]
+            # every use of a ledger's token must be of a shape one of the token's patterns recognises
+            # (several ledgers may share a token, each with its own shape; before/after pairs share one pattern)
+            body0_ = body
+            cover_ = {}
+            for token, rx, proof, after in ctr.ledgers:
+                cover_.setdefault(token, set()).add(rx)
+            for token, rxs in cover_.items():
+                spans_ = set()
+                for rx in rxs:
+                    for h in re.finditer(rx, body0_):
+                        spans_.add((h.start(), h.end()))
+                covered = sum(body0_[a_:b_].count(token) for a_, b_ in spans_)
+                if body0_.count(token) != covered:
+                    raise Undecided("%s: a use of `%s` is not of the shape the ledger pattern recognises" % (key, token))
             for token, rx, proof, after in ctr.ledgers:
                 hits = list(re.finditer(rx, body))
-                covered = sum(body[h.start():h.end()].count(token) for h in hits)
-                if body.count(token) != covered:
-                    raise Undecided("%s: a use of `%s` is not of the shape the ledger pattern recognises" % (key, token))
                 for h in reversed(hits):
                     ptxt = proof
                     for gi in range(1, (h.lastindex or 0) + 1):
